@@ -2,6 +2,7 @@ package props
 
 import (
 	"fmt"
+	"github.com/jf-tech/omniparser/idr"
 	"regexp"
 	"strings"
 
@@ -146,6 +147,10 @@ func runC09(c *Ctx) []Violation {
 		c.Note("DIFF at result #%d under %s", d+1, plan.String())
 		out = append(out, v)
 		break
+	}
+	if !c.Race {
+		// pool behaviour is part of the deterministic execution (plain build only: race builds drop pooled items at random)
+		c.Ev("node-id-counter", idr.VerifNodeIDCounter())
 	}
 	c.Sample = map[string]interface{}{"world": w.Name, "format": w.Format, "input_bytes": len(w.Input), "results": len(base.Entries), "plans": k}
 	return out
